@@ -25,7 +25,7 @@ def add(sid, patch, demo, meta, prop):
 
 def run(ids, tier="quick", seeds=("1",)):
     if not ids:
-        ids = sorted(os.listdir(SD))
+        ids = sorted(x for x in os.listdir(SD) if os.path.isdir(os.path.join(SD, x)))
     rows = []
     for sid in ids:
         d = os.path.join(SD, sid)
@@ -57,7 +57,16 @@ def run(ids, tier="quick", seeds=("1",)):
             kind = "no-failing-input-found" if "no-failing-input-found" in outs[0][1][0] else "with-failing-input"
         rows.append((sid, prop, "CAUGHT" if caught else ("partly" if any(rc == 1 for rc, _ in outs) else "MISSED"), kind))
         print(rows[-1], flush=True)
+        record(sid, tier, rows[-1][2], kind)
     return rows
+
+
+def record(sid, tier, outcome, kind):
+    """seeded/RESULTS.json: last outcome of every seeded change per tier (read by scripts/mkstatus.py for DESIGN.md)"""
+    p = os.path.join(SD, "RESULTS.json")
+    d = json.load(open(p)) if os.path.exists(p) else {}
+    d.setdefault(sid, {})[tier] = dict(outcome=outcome, kind=kind)
+    json.dump(d, open(p, "w"), indent=1, sort_keys=True)
 
 
 def confirm(sid):
